@@ -745,6 +745,19 @@ impl<'e> Report<'e> {
         }
     }
 
+    /// adds the summary lines of the libFuzzer driver (tools/fuzz.sh, path in $VH_FUZZ_SUMMARY) to the evidence
+    pub fn merge_fuzz_summary(&mut self) {
+        if let Ok(p) = std::env::var("VH_FUZZ_SUMMARY") {
+            if let Ok(t) = std::fs::read_to_string(&p) {
+                let lines: Vec<String> = t.lines().filter(|l| l.starts_with("FUZZ ") || l.starts_with("VIOLATION") || l.starts_with("INCONCLUSIVE")).map(String::from).collect();
+                if !lines.is_empty() {
+                    self.note(format!("libFuzzer targets (tools/fuzz.sh): {}", lines.join("; ")));
+                    self.extra.insert("libfuzzer".into(), json!(lines));
+                }
+            }
+        }
+    }
+
     pub fn finish(self) -> i32 {
         let wall = self.env.start.elapsed().as_secs_f64();
         let mut evaluations = 0u64;
